@@ -2,6 +2,7 @@
 //! usage: verif-harness <module> <mode> --out summary.json [--cases file.ndjson] [--seed N] [...]
 mod util;
 mod cp;
+mod framing;
 
 use util::*;
 
@@ -13,6 +14,8 @@ fn main() {
     match (args.module.as_str(), args.mode.as_str()) {
         ("cp", "replay") => cp::replay(&args, &mut s),
         ("cp", "record") => cp::record(&args, &mut s),
+        ("framing", "replay") => framing::replay(&args, &mut s),
+        ("framing", "record") => framing::record(&args, &mut s),
         (m, o) => {
             eprintln!("unknown module/mode {m} {o}");
             std::process::exit(2);
